@@ -101,20 +101,40 @@ func readGpos5_1(p *parser.Parser, subtablePos int64) (Subtable, error) {
 		if err != nil {
 			return nil, err
 		}
-		ligAttach := make([][]anchor.Table, componentCount)
+		numOffsets := uint(componentCount) * uint(markClassCount)
+		if numOffsets > (65536-6-2)/2 {
+			// Offsets are 16-bit from ligAttachPos, and there must still be
+			// space for at least one anchor table.
+			return nil, &parser.InvalidFontError{
+				SubSystem: "sfnt/opentype/gtab",
+				Reason:    "GPOS5.1 table too large",
+			}
+		}
+		// The component records: for every component of the ligature, one
+		// offset per mark class.  Offsets are from the beginning of the
+		// LigatureAttach table.
+		anchorOffsets := make([]uint16, numOffsets)
+		for k := range anchorOffsets {
+			anchorOffsets[k], err = p.ReadUint16()
+			if err != nil {
+				return nil, err
+			}
+		}
 
-		for j := 0; j < int(componentCount); j++ {
+		ligAttach := make([][]anchor.Table, componentCount)
+		for j := range ligAttach {
 			row := make([]anchor.Table, markClassCount)
-			for j := range row {
-				if offsets[j] == 0 {
+			for k := range row {
+				if anchorOffsets[k] == 0 {
 					continue
 				}
-				row[j], err = anchor.Read(p, ligAttachPos+int64(offsets[j]))
+				row[k], err = anchor.Read(p, ligAttachPos+int64(anchorOffsets[k]))
 				if err != nil {
 					return nil, err
 				}
 			}
-			ligAttach[i] = row
+			ligAttach[j] = row
+			anchorOffsets = anchorOffsets[markClassCount:]
 		}
 
 		ligArray[i] = ligAttach
